@@ -1,5 +1,390 @@
-import KatdalModel.Model.Select
+/-
+  C02 — select() criteria combine as documented, whatever the call history.
+
+  "After any sequence of select() calls the selection equals, per dimension (time, frequency,
+   correlation product), the AND of the criteria given in the most recent call that mentioned that
+   dimension, with OR across the items inside one criterion and untouched dimensions left as they
+   were; reset='' instead ANDs the new criteria onto the existing selection, an explicit reset
+   clears the named dimensions and select() without arguments clears everything.  Repeating a
+   call changes nothing, keyword order is irrelevant, and each criterion keeps exactly the dumps,
+   channels or products its documentation describes ..."
+
+  Model `Select.select` mirrors dataset.py (masks + insertion-ordered `_selection` dict, every stored
+  criterion re-applied on every call); spec `Select.specStep` is the documented rule with no dict.
+-/
+import KatdalModel.Lemmas.SelectLemmas
 open Np Index Select
+
 namespace C02
-theorem placeholder : (1 : Nat) = 1 := rfl
+
+/-- well-formedness of a criterion / call against the base masks: masks have the axis length,
+    and the keys of one call are distinct (they come from a Python kwargs dict) -/
+def CritWF (base : Masks) (c : Crit) : Prop := c.mask.length = (base.get c.key.dim).length
+def CallWF (base : Masks) (c : Call) : Prop :=
+  (∀ k ∈ c.crits, CritWF base k) ∧ (c.crits.map (·.key)).Nodup
+
+/-- the invariant that makes re-applying stored criteria harmless: every mask has its axis
+    length and every stored criterion already contains the current mask of its dimension -/
+def Inv (base : Masks) (σ : St) : Prop :=
+  (∀ d, (σ.masks.get d).length = (base.get d).length) ∧
+  (∀ c ∈ σ.sel, CritWF base c ∧
+    ∀ i, (σ.masks.get c.key.dim).getD i false = true → c.mask.getD i false = true)
+
+theorem inv_init (base : Masks) : Inv base (init base) :=
+  ⟨fun _ => rfl, fun c hc => by simp [init] at hc⟩
+
+/-- one dimension of one call: mirror = spec, and the invariant is re-established -/
+theorem dim_step (base : Masks) (σ : St) (c : Call) (hI : Inv base σ) (hW : CallWF base c) (d : Dim) :
+    let m1 := if cleared c d then base.get d else σ.masks.get d
+    let sel2 := c.crits.foldl upsert (σ.sel.filter (fun k => !cleared c k.key.dim))
+    andAll m1 sel2 d = andAll m1 c.crits d ∧
+    (andAll m1 sel2 d).length = (base.get d).length ∧
+    ∀ k ∈ sel2, k.key.dim = d → CritWF base k ∧
+      ∀ i, (andAll m1 sel2 d).getD i false = true → k.mask.getD i false = true := by
+  intro m1 sel2
+  obtain ⟨hlen, hsel⟩ := hI
+  obtain ⟨hwf, hnd⟩ := hW
+  have hm1len : m1.length = (base.get d).length := by
+    simp only [m1]; split
+    · rfl
+    · exact hlen d
+  have hmem := mem_foldl_upsert c.crits (σ.sel.filter (fun k => !cleared c k.key.dim)) hnd
+  have hsel2wf : ∀ k ∈ sel2, CritWF base k := by
+    intro k hk
+    rcases (hmem k).mp hk with h | ⟨h, _⟩
+    · exact hwf k h
+    · exact (hsel k ((List.mem_filter.mp h).1)).1
+  have hcl2 : critsLen sel2 d m1.length := by
+    intro k hk hkd
+    have := hsel2wf k hk
+    unfold CritWF at this
+    rw [hkd] at this
+    omega
+  have hclc : critsLen c.crits d m1.length := by
+    intro k hk hkd
+    have := hwf k hk
+    unfold CritWF at this
+    rw [hkd] at this
+    omega
+  have hl2 := andAll_length d sel2 m1 hcl2
+  have hlc := andAll_length d c.crits m1 hclc
+  -- old criteria that survive contain m1 already
+  have hold : ∀ k ∈ sel2, k ∉ c.crits → k.key.dim = d → ∀ i, m1.getD i false = true → k.mask.getD i false = true := by
+    intro k hk hnot hkd i hi
+    rcases (hmem k).mp hk with h | ⟨h, _⟩
+    · exact absurd h hnot
+    · have hks : k ∈ σ.sel := (List.mem_filter.mp h).1
+      have hncl : cleared c k.key.dim = false := by
+        have := (List.mem_filter.mp h).2
+        simpa using this
+      rw [hkd] at hncl
+      have : m1 = σ.masks.get d := by simp only [m1, hncl]; rfl
+      rw [this] at hi
+      have := (hsel k hks).2 i
+      rw [hkd] at this
+      exact this hi
+  refine ⟨?_, by omega, ?_⟩
+  · apply mask_ext _ _ (by omega)
+    intro i _
+    rw [andAll_getD d sel2 m1 hcl2 i, andAll_getD d c.crits m1 hclc i]
+    cases hm : m1.getD i false with
+    | false => simp
+    | true =>
+      simp only [Bool.true_and]
+      apply Bool.eq_iff_iff.mpr
+      simp only [List.all_eq_true, Bool.or_eq_true, Bool.not_eq_true', beq_eq_false_iff_ne, ne_eq]
+      constructor
+      · intro h k hk
+        exact h k ((hmem k).mpr (Or.inl hk))
+      · intro h k hk
+        by_cases hkc : k ∈ c.crits
+        · exact h k hkc
+        · by_cases hkd : k.key.dim = d
+          · exact Or.inr (hold k hk hkc hkd i hm)
+          · exact Or.inl hkd
+  · intro k hk hkd
+    refine ⟨hsel2wf k hk, ?_⟩
+    intro i hi
+    rw [andAll_getD d sel2 m1 hcl2 i] at hi
+    simp only [Bool.and_eq_true, List.all_eq_true, Bool.or_eq_true, Bool.not_eq_true',
+      beq_eq_false_iff_ne, ne_eq] at hi
+    rcases hi.2 k hk with h | h
+    · exact absurd hkd h
+    · exact h
+
+/-- **One call**: the dict-carrying implementation model and the documented per-dimension rule
+    give the same masks, and the invariant is preserved. -/
+theorem select_step (base : Masks) (σ : St) (c : Call) (hI : Inv base σ) (hW : CallWF base c) :
+    (select base σ c).masks = specStep base σ.masks c ∧ Inv base (select base σ c) := by
+  obtain ⟨hT1, hT2, hT3⟩ := dim_step base σ c hI hW .T
+  obtain ⟨hF1, hF2, hF3⟩ := dim_step base σ c hI hW .F
+  obtain ⟨hB1, hB2, hB3⟩ := dim_step base σ c hI hW .B
+  simp only [Masks.get] at hT1 hT2 hT3 hF1 hF2 hF3 hB1 hB2 hB3
+  refine ⟨?_, ?_, ?_⟩
+  · simp only [select, specStep, hT1, hF1, hB1]
+  · intro d
+    cases d <;> simp only [select, Masks.get] <;> assumption
+  · intro k hk
+    simp only [select] at hk ⊢
+    cases hd : k.key.dim with
+    | T => have := hT3 k hk hd; simpa only [Masks.get, hd] using this
+    | F => have := hF3 k hk hd; simpa only [Masks.get, hd] using this
+    | B => have := hB3 k hk hd; simpa only [Masks.get, hd] using this
+
+/-- **C02 refinement, every finite history**: after any sequence of well-formed calls from the
+    initial state, the masks are those of the documented rule folded over the same calls. -/
+theorem c02_refines (base : Masks) : ∀ (cs : List Call) (σ : St), Inv base σ → (∀ c ∈ cs, CallWF base c) →
+    (cs.foldl (select base) σ).masks = cs.foldl (specStep base) σ.masks ∧
+    Inv base (cs.foldl (select base) σ) := by
+  intro cs
+  induction cs with
+  | nil => intro σ hI _; exact ⟨rfl, hI⟩
+  | cons c t ih =>
+    intro σ hI hW
+    obtain ⟨h1, h2⟩ := select_step base σ c hI (hW c (List.mem_cons_self ..))
+    simp only [List.foldl_cons]
+    have := ih (select base σ c) h2 (fun x hx => hW x (List.mem_cons_of_mem _ hx))
+    rw [h1] at this
+    exact this
+
+theorem c02_refines_from_init (base : Masks) (cs : List Call) (hW : ∀ c ∈ cs, CallWF base c) :
+    (cs.foldl (select base) (init base)).masks = cs.foldl (specStep base) base :=
+  (c02_refines base cs (init base) (inv_init base) hW).1
+
+/-! ### Consequences of the documented rule (stated on `specStep`; they transfer to the
+    implementation model through `c02_refines`) -/
+
+/-- `select()` without arguments clears everything -/
+theorem c02_noarg_clears (base m : Masks) :
+    specStep base m { crits := [], reset := .auto, bare := true } = base := by
+  simp [specStep, cleared, andAll]
+
+/-- a dimension not mentioned by an auto-reset call is left as it was -/
+theorem c02_untouched_dim (base m : Masks) (c : Call) (d : Dim) (hb : c.bare = false)
+    (hr : c.reset = .auto) (hno : ∀ k ∈ c.crits, k.key.dim ≠ d) :
+    (specStep base m c).get d = m.get d := by
+  have hcl : cleared c d = false := by
+    simp only [cleared, hb, hr, Bool.false_or, List.any_eq_false, beq_iff_eq]
+    intro k hk; exact hno k hk
+  have hand : ∀ (cs : List Crit) (x : List Bool), (∀ k ∈ cs, k.key.dim ≠ d) → andAll x cs d = x := by
+    intro cs
+    induction cs with
+    | nil => intro x _; rfl
+    | cons k t ih =>
+      intro x h
+      have hk : (k.key.dim == d) = false := by simpa using h k (List.mem_cons_self ..)
+      simp only [andAll, List.foldl_cons, hk, Bool.false_eq_true, if_false]
+      exact ih x (fun y hy => h y (List.mem_cons_of_mem _ hy))
+  cases d <;> simp only [specStep, Masks.get, hcl, Bool.false_eq_true, if_false] <;> exact hand _ _ hno
+
+/-- an auto-reset call that mentions a dimension replaces the selection on it by the AND of the
+    new criteria on the base mask -/
+theorem c02_replaces (base m : Masks) (c : Call) (d : Dim) (hr : c.reset = .auto)
+    (hyes : ∃ k ∈ c.crits, k.key.dim = d) :
+    (specStep base m c).get d = andAll (base.get d) c.crits d := by
+  have hcl : cleared c d = true := by
+    simp only [cleared, hr, Bool.or_eq_true, List.any_eq_true, beq_iff_eq]
+    exact Or.inr hyes
+  cases d <;> simp only [specStep, Masks.get, hcl, if_true]
+
+/-- `reset=''` ANDs the new criteria onto the existing selection -/
+theorem c02_stacks (base m : Masks) (c : Call) (d : Dim) (hb : c.bare = false)
+    (hr : c.reset = .explicit []) :
+    (specStep base m c).get d = andAll (m.get d) c.crits d := by
+  have hcl : cleared c d = false := by simp [cleared, hb, hr]
+  cases d <;> simp only [specStep, Masks.get, hcl, Bool.false_eq_true, if_false]
+
+/-- repeating a call changes nothing (pointwise AND is idempotent) -/
+theorem c02_idempotent (base m : Masks) (c : Call)
+    (hm : ∀ d, (m.get d).length = (base.get d).length) (hW : CallWF base c) :
+    specStep base (specStep base m c) c = specStep base m c := by
+  have key : ∀ d, (specStep base (specStep base m c) c).get d = (specStep base m c).get d := by
+    intro d
+    have hlen1 : ((if cleared c d then base.get d else m.get d)).length = (base.get d).length := by
+      split
+      · rfl
+      · exact hm d
+    have hcl : critsLen c.crits d (base.get d).length := by
+      intro k hk hkd
+      have := hW.1 k hk
+      unfold CritWF at this
+      rw [hkd] at this; exact this
+    have hstep : (specStep base m c).get d = andAll (if cleared c d then base.get d else m.get d) c.crits d := by
+      cases d <;> simp only [specStep, Masks.get]
+    have hstep2 : (specStep base (specStep base m c) c).get d =
+        andAll (if cleared c d then base.get d else (specStep base m c).get d) c.crits d := by
+      cases d <;> simp only [specStep, Masks.get]
+    rw [hstep2, hstep]
+    by_cases hc : cleared c d = true
+    · simp only [hc, if_true]
+    · have hcf : cleared c d = false := by simpa using hc
+      simp only [hcf, Bool.false_eq_true, if_false]
+      have hl1 := andAll_length d c.crits (m.get d) (by rw [hm d]; exact hcl)
+      apply mask_ext
+      · rw [andAll_length d c.crits _ (by rw [hl1, hm d]; exact hcl), hl1]
+      · intro i _
+        rw [andAll_getD d c.crits _ (by rw [hl1, hm d]; exact hcl) i,
+          andAll_getD d c.crits (m.get d) (by rw [hm d]; exact hcl) i]
+        cases (m.get d).getD i false <;> cases (c.crits.all fun c => !(c.key.dim == d) || c.mask.getD i false) <;> rfl
+  have hT := key .T
+  have hF := key .F
+  have hB := key .B
+  simp only [Masks.get] at hT hF hB
+  generalize specStep base (specStep base m c) c = x at hT hF hB
+  generalize specStep base m c = y at hT hF hB
+  cases x; cases y
+  simp only at hT hF hB
+  simp [hT, hF, hB]
+
+/-- keyword order is irrelevant: any permutation of the criteria of a call gives the same masks -/
+theorem c02_kw_order (base m : Masks) (c : Call) (crits' : List Crit) (hp : crits'.Perm c.crits)
+    (hm : ∀ d, (m.get d).length = (base.get d).length) (hW : CallWF base c) :
+    specStep base m { c with crits := crits' } = specStep base m c := by
+  have hcleared : ∀ d, cleared { c with crits := crits' } d = cleared c d := by
+    intro d
+    simp only [cleared]
+    cases c.reset with
+    | explicit dims => rfl
+    | auto =>
+      congr 1
+      apply Bool.eq_iff_iff.mpr
+      simp only [List.any_eq_true, beq_iff_eq]
+      constructor
+      · rintro ⟨k, hk, hkd⟩; exact ⟨k, hp.mem_iff.mp hk, hkd⟩
+      · rintro ⟨k, hk, hkd⟩; exact ⟨k, hp.mem_iff.mpr hk, hkd⟩
+  have key : ∀ d (x : List Bool), x.length = (base.get d).length → andAll x crits' d = andAll x c.crits d := by
+    intro d x hx
+    have hcl : critsLen c.crits d x.length := by
+      intro k hk hkd
+      have := hW.1 k hk
+      unfold CritWF at this
+      rw [hkd] at this; omega
+    have hcl' : critsLen crits' d x.length := fun k hk hkd => hcl k (hp.mem_iff.mp hk) hkd
+    apply mask_ext
+    · rw [andAll_length d _ x hcl', andAll_length d _ x hcl]
+    · intro i _
+      rw [andAll_getD d _ x hcl' i, andAll_getD d _ x hcl i]
+      congr 1
+      apply Bool.eq_iff_iff.mpr
+      simp only [List.all_eq_true]
+      constructor
+      · intro h k hk; exact h k (hp.mem_iff.mpr hk)
+      · intro h k hk; exact h k (hp.mem_iff.mp hk)
+  have hlen : ∀ d, (if cleared c d then base.get d else m.get d).length = (base.get d).length := by
+    intro d; split
+    · rfl
+    · exact hm d
+  simp only [specStep, hcleared]
+  have hT := key .T _ (hlen .T)
+  have hF := key .F _ (hlen .F)
+  have hB := key .B _ (hlen .B)
+  simp only [Masks.get] at hT hF hB
+  rw [hT, hF, hB]
+
+/-! ### What each criterion keeps (semantics of `evalCrit`, stated independently of its body) -/
+
+/-- timerange / freqrange keep exactly the points lying wholly inside the range:
+    `keep i ↔ a ≤ xᵢ − half ∧ xᵢ + half ≤ b` -/
+theorem c02_range_wholly_inside (xs : List Int) (half a b : Int) (i : Nat) (hi : i < xs.length) :
+    (rangeMask xs half a b).getD i false = true ↔ a ≤ xs[i] - half ∧ xs[i] + half ≤ b := by
+  simp only [rangeMask, List.getD_eq_getElem?_getD, List.getElem?_map, List.getElem?_eq_getElem hi,
+    Option.map_some, Option.getD_some, Bool.and_eq_true, decide_eq_true_eq]
+  omega
+
+/-- a `~name` item keeps exactly the dumps whose state differs from `name` -/
+theorem c02_tilde_negates (state idx : List Nat) (id : Nat) (i : Nat) (hi : i < state.length) :
+    (scanItemMask state idx (.notName id)).getD i false = !((scanItemMask state idx (.name id)).getD i false) := by
+  simp [scanItemMask, List.getD_eq_getElem?_getD, List.getElem?_map, List.getElem?_eq_getElem hi]
+
+theorem orMask_getD (a b : List Bool) (h : a.length = b.length) (i : Nat) :
+    (orMask a b).getD i false = (a.getD i false || b.getD i false) := by
+  unfold orMask
+  simp only [List.getD_eq_getElem?_getD, List.getElem?_zipWith]
+  by_cases hi : i < a.length
+  · have hb : i < b.length := by omega
+    simp [List.getElem?_eq_getElem hi, List.getElem?_eq_getElem hb]
+  · have ha : a[i]? = none := List.getElem?_eq_none (by omega)
+    have hb : b[i]? = none := List.getElem?_eq_none (by omega)
+    simp [ha, hb]
+
+theorem scanItemMask_length (state idx : List Nat) (h : state.length = idx.length) (it : ScanItem) :
+    (scanItemMask state idx it).length = state.length := by
+  cases it <;> simp [scanItemMask, h]
+
+/-- items inside one scans/compscans criterion are ORed: a dump is kept iff some item keeps it -/
+theorem c02_items_are_ORed (n : Nat) (state idx : List Nat) (hs : state.length = n) (hx : idx.length = n) :
+    ∀ (items : List ScanItem) (i : Nat),
+      (scansMask n state idx items).getD i false =
+        items.any (fun it => (scanItemMask state idx it).getD i false) := by
+  intro items i
+  unfold scansMask
+  have gen : ∀ (items : List ScanItem) (acc : List Bool), acc.length = n →
+      (items.foldl (fun acc it => orMask acc (scanItemMask state idx it)) acc).getD i false =
+        (acc.getD i false || items.any (fun it => (scanItemMask state idx it).getD i false)) := by
+    intro items
+    induction items with
+    | nil => intro acc _; simp
+    | cons it t ih =>
+      intro acc hacc
+      have hl : (scanItemMask state idx it).length = n := by
+        rw [scanItemMask_length state idx (by omega) it, hs]
+      have hol : (orMask acc (scanItemMask state idx it)).length = n := by
+        simp [orMask, List.length_zipWith, hacc, hl]
+      simp only [List.foldl_cons, List.any_cons]
+      rw [ih _ hol, orMask_getD _ _ (by omega), Bool.or_assoc]
+  rw [gen items (List.replicate n false) (by simp)]
+  by_cases hi : i < n
+  · simp [List.getD_eq_getElem?_getD, List.getElem?_replicate, hi]
+  · simp [List.getD_eq_getElem?_getD, List.getElem?_replicate, hi]
+
+/-- unknown targets select nothing: an empty resolved index list keeps no dump -/
+theorem c02_unknown_target_selects_nothing (tgtIdx : List Nat) (i : Nat) :
+    (targetsMask tgtIdx []).getD i false = false := by
+  simp [targetsMask, List.getD_eq_getElem?_getD, List.getElem?_map]
+  cases tgtIdx[i]? <;> simp
+
+/-- a tag carried by no target selects nothing -/
+theorem c02_unknown_tag_selects_nothing (tgtIdx : List Nat) (tgtTags : List (List Nat)) (tag : Nat)
+    (hunk : ∀ tags ∈ tgtTags, tag ∉ tags) (i : Nat) :
+    (tagsMask tgtIdx tgtTags [tag]).getD i false = false := by
+  simp only [tagsMask, List.getD_eq_getElem?_getD, List.getElem?_map]
+  cases h : tgtIdx[i]? with
+  | none => simp
+  | some k =>
+    simp only [Option.map_some, Option.getD_some, List.any_eq_false, List.contains_cons,
+      List.contains_nil, Bool.or_false, beq_iff_eq]
+    intro t ht heq
+    subst heq
+    by_cases hk : k < tgtTags.length
+    · have hm : tgtTags.getD k [] ∈ tgtTags := by
+        simp [List.getD_eq_getElem?_getD, List.getElem?_eq_getElem hk]
+      exact hunk _ hm ht
+    · have : tgtTags[k]? = none := List.getElem?_eq_none (by omega)
+      simp [List.getD_eq_getElem?_getD, this] at ht
+
+/-- `ants` with every name prefixed by `~` is a deselection: a product is kept iff neither of its
+    inputs belongs to a named antenna -/
+theorem c02_ants_all_tilde (cpA cpB : List (Nat × Nat)) (names : List Nat) (i : Nat)
+    (hi : i < cpA.length) (hl : cpA.length = cpB.length) :
+    (antsMask cpA cpB (names.map fun n => (true, n))).getD i false =
+      (!names.contains cpA[i].1 && !names.contains (cpB[i]'(by omega)).1) := by
+  have hall : ((names.map fun n => (true, n)).all (·.1)) = true := by simp
+  have hb : i < cpB.length := by omega
+  simp [antsMask, hall, List.getD_eq_getElem?_getD, List.getElem?_zipWith,
+    List.getElem?_eq_getElem hi, List.getElem?_eq_getElem hb, Function.comp_def]
+
+/-! ### Non-vacuity: a concrete history satisfying the hypotheses, on which mirror and spec agree -/
+
+def exBase : Masks := { t := [true, true, true, true], f := [true, true], b := [true, true, true] }
+def exCalls : List Call :=
+  [ { crits := [⟨.dumps, [true, true, true, false]⟩, ⟨.corrprods, [true, false, true]⟩], reset := .auto, bare := false },
+    { crits := [⟨.scans, [false, true, true, true]⟩], reset := .explicit [], bare := false },
+    { crits := [⟨.channels, [false, true]⟩], reset := .auto, bare := false } ]
+
+example : (exCalls.foldl (select exBase) (init exBase)).masks =
+    { t := [false, true, true, false], f := [false, true], b := [true, false, true] } := by decide
+example : exCalls.foldl (specStep exBase) exBase =
+    { t := [false, true, true, false], f := [false, true], b := [true, false, true] } := by decide
+example : ∀ c ∈ exCalls, (∀ k ∈ c.crits, k.mask.length = (exBase.get k.key.dim).length) := by decide
+
 end C02
